@@ -307,8 +307,7 @@ def execute(plan, ctx):
         if not any(len(set(blk["rows"])) < len(blk["rows"]) for blk in resamples):
             ctx.fail("C18.no_replacement", f"no resample among {B} contains a repeated row (sampling without replacement?)")
     # ---- 6. quantile bracket against the spy-computed per-resample values -----------------------
-    if "mean" in plan["metrics"]:
-        _bracket_checks(ctx, plan, res1, resamples)
+    _bracket_checks(ctx, plan, res1, resamples)
     # ---- 7. wide pair ------------------------------------------------------------------------------
     if "mean" in plan["metrics"] and no_cf and plan["varying"] and n >= 8 and 8 <= B <= 20 and okc and isinstance(cv, list) \
             and len(cv) == len(qs):
@@ -529,43 +528,45 @@ def _bracket(vals, c, q):
 
 
 def _bracket_checks(ctx, plan, res, resamples):
+    """Every reported quantile of every metric against the per-resample values the spies computed."""
     qs = plan["quantiles"]
-    okp, pv, okc, cv, _ = res["overall"]
-    if okc and isinstance(cv, list) and len(cv) == len(qs) and plan["ncf"] == 0:
-        vals = [blk["overall"].get((), {}).get("m_mean", float("nan")) for blk in resamples]
-        for q, e in zip(qs, cv):
-            c = _cell(e, plan, "m_mean")
-            if c is None:
-                continue
-            msg = _bracket(vals, c, q)
-            if msg:
-                ctx.fail("C18.quantile_bracket", f"overall_ci q={q}: {msg}")
-                return
-            ref = float(np.quantile(vals, q))
-            if abs(ref - c) > 1e-12:
-                ctx.probe("quantile_not_numpy_default")
-    okp, pv, okc, cv, _ = res["by_group"]
-    if okc and isinstance(cv, list) and len(cv) == len(qs):
-        for q, e in zip(qs, cv):
-            if isinstance(e, pd.DataFrame):
-                if "m_mean" not in e.columns:
-                    return
-                ser = e["m_mean"]
-            elif isinstance(e, pd.Series):
-                ser = e
-            else:
-                return
-            level_names = list(ser.index.names)
-            for ix in ser.index:
-                key = ix if isinstance(ix, tuple) else (ix,)
-                vals = []
-                for blk in resamples:
-                    hit = [v for k, v in blk["groups"].items() if _project(k, level_names, plan) == key]
-                    vals.append(hit[0]["m_mean"] if hit else float("nan"))
-                msg = _bracket(vals, float(ser[ix]), q)
+    for kind in plan["metrics"]:
+        mname = f"m_{kind}"
+        okp, pv, okc, cv, _ = res["overall"]
+        if okc and isinstance(cv, list) and len(cv) == len(qs) and plan["ncf"] == 0:
+            vals = [blk["overall"].get((), {}).get(mname, float("nan")) for blk in resamples]
+            for q, e in zip(qs, cv):
+                c = _cell(e, plan, mname)
+                if c is None:
+                    continue
+                msg = _bracket(vals, c, q)
                 if msg:
-                    ctx.fail("C18.quantile_bracket", f"by_group_ci[{key}] q={q}: {msg}")
+                    ctx.fail("C18.quantile_bracket", f"overall_ci[{mname}] q={q}: {msg}")
                     return
+                if abs(float(np.quantile(vals, q)) - c) > 1e-12:
+                    ctx.probe("quantile_not_numpy_default")
+        okp, pv, okc, cv, _ = res["by_group"]
+        if okc and isinstance(cv, list) and len(cv) == len(qs):
+            for q, e in zip(qs, cv):
+                if isinstance(e, pd.DataFrame):
+                    if mname not in e.columns:
+                        break
+                    ser = e[mname]
+                elif isinstance(e, pd.Series):
+                    ser = e
+                else:
+                    break
+                level_names = list(ser.index.names)
+                for ix in ser.index:
+                    key = ix if isinstance(ix, tuple) else (ix,)
+                    vals = []
+                    for blk in resamples:
+                        hit = [v for k, v in blk["groups"].items() if _project(k, level_names, plan) == key]
+                        vals.append(hit[0][mname] if hit else float("nan"))
+                    msg = _bracket(vals, float(ser[ix]), q)
+                    if msg:
+                        ctx.fail("C18.quantile_bracket", f"by_group_ci[{mname}][{key}] q={q}: {msg}")
+                        return
 
 
 def shrink_candidates(plan):
